@@ -11,6 +11,12 @@ FILLERS = ["plain words", "''italic'' and '''bold'''", "a [[link|text]] here", "
            "e.g. -- dashes", "tail&amp;entity"]
 
 
+LINE_OPENERS = ["<nowiki>*x</nowiki> ", "<nowiki>y</nowiki>", "<nowiki/>", "''i'' ", "'''b''' ", "[[l]] ", "{{a|x}} ", "<b>h</b> ",
+                "&amp; ", "<span>s</span> ", "[http://x.y e] ", "{{{1|d}}} ", "-{}-", "~ "]
+
+
+# (a comment at the start of a line is not in this list: by C15 it is deleted together with the line break before it,
+#  which joins the two lines)
 def render(doc, rng):
     out = []
     for b in doc:
@@ -18,7 +24,9 @@ def render(doc, rng):
             eq = "=" * b[1]
             out.append("%s H%d %s\n" % (eq, b[2], eq))
         elif b[0] == "T":
-            out.append("P%d %s\n\n" % (b[1], rng.choice(FILLERS)))
+            # the paragraph may begin with any inline construct (every one of them has to close the open lists)
+            opener = rng.choice(LINE_OPENERS) if rng.random() < 0.4 else ""
+            out.append("%sP%d %s\n\n" % (opener, b[1], rng.choice(FILLERS)))
         elif b[0] == "HR":
             out.append("----\n")
         else:
